@@ -77,9 +77,7 @@ func (g *cubicGen) monfail(key, desc string) {
 }
 
 func obStr(ret int64, pan bool, s congestion.VerifState) string {
-	return u.App("Ob", u.Z(ret), u.B(pan), u.Z(s.Cwnd), u.Z(s.Ssthresh), u.Z(s.LargestSent), u.Z(s.LargestAcked),
-		u.Z(s.LargestAtCutback), u.B(s.LastCutbackExitedSS), u.ZU(s.NumAcked), u.Z(s.Mds), u.Z(s.HsEnd), u.Z(s.HsLastSent),
-		u.B(s.HsStarted), u.B(s.HsFound), u.Z(s.HsCurMinRTT), u.Z(int64(s.HsCount)), u.Z(s.PBudget), u.Z(s.PMds), u.Z(s.PLast))
+	return congestion.VerifObStr(ret, pan, s)
 }
 
 func b2i(b bool) int64 {
